@@ -487,21 +487,32 @@ Lemma in_cands x : In x (hl_cands p) <->
   In x (hl_off p) \/ In x (ep_comp p DW) \/ In x (ep_comp p DE).
 Proof. unfold hl_cands. rewrite !in_app_iff. tauto. Qed.
 
-Lemma cand_sound x : In x (hl_cands p) -> lg x = true -> exists m, In m (pseudo p) /\ is_legal p m = true.
+Lemma snd_king x : In x (hl_king p) -> lg x = true -> exists m, In m (pseudo p) /\ is_legal p m = true.
 Proof.
   intros Hx Hl. destruct (king_facts p Hlegal) as (K1 & K2 & K3).
   pose proof (legal_wfp p Hlegal) as Hw. pose proof (wf_stm p Hw) as Hc.
-  apply in_cands in Hx. destruct Hx as [Hx|[Hx|[Hx|[Hx|[Hx|[Hx|[Hx|Hx]]]]]]].
-  - (* king *)
+  (* king *)
     unfold hl_king in Hx. apply (to_list_in k0 _ x (ldiff_lt _ _ (bb_of_lt _ (king_targets_lt k0)))) in Hx as [to [Hb ->]].
     rewrite N.ldiff_spec, bb_of_testbit in Hb. apply andb_true_iff in Hb as [Hb1 Hb2].
     apply existsb_eqb_In in Hb1. apply negb_true_iff in Hb2. pose proof (king_targets_lt _ _ Hb1) as Hto.
     destruct (piece_cand KING k0 to K1 (or_intror eq_refl) K2 Hb1 (own_or_not to Hto Hb2)) as (P1 & P2 & P3).
     exists (mkmv k0 to NORMAL 3). split; [exact P1|]. now rewrite <- (lg_code _ P3), <- P2.
-  - (* double steps *)
+Qed.
+
+Lemma snd_double x : In x (double_list p) -> lg x = true -> exists m, In m (pseudo p) /\ is_legal p m = true.
+Proof.
+  intros Hx Hl. destruct (king_facts p Hlegal) as (K1 & K2 & K3).
+  pose proof (legal_wfp p Hlegal) as Hw. pose proof (wf_stm p Hw) as Hc.
+  (* double steps *)
     apply (double_class prom_nq p Hlegal) in Hx. apply class_codes_in in Hx as (m & Hm & _ & <-).
     exists m. split; [exact Hm|]. now rewrite <- (lg_code m (pseudo_valid p m Hw Hm)).
-  - (* single steps *)
+Qed.
+
+Lemma snd_push x : In x (hl_push p) -> lg x = true -> exists m, In m (pseudo p) /\ is_legal p m = true.
+Proof.
+  intros Hx Hl. destruct (king_facts p Hlegal) as (K1 & K2 & K3).
+  pose proof (legal_wfp p Hlegal) as Hw. pose proof (wf_stm p Hw) as Hc.
+  (* single steps *)
     unfold hl_push in Hx. apply (loop_in p (push_word p) (fwd c) normal1 x (push_word_lt p)) in Hx.
     2:{ intros t Ht. apply push_word_bit in Ht as [s [Hs [E _]]]. now exists s. }
     destruct Hx as (s & t & [Hs Hat] & E & Hb & [<-|[]]). apply push_word_bit in Hb as (s' & _ & _ & E0).
@@ -515,7 +526,13 @@ Proof.
     + exists (mkmv s t NORMAL 3). split; [|exact Hl].
       apply pseudo_of_shape. apply (ps_pawn p s _ Hs Hat). apply (pawn_moves_pmove prom_nq). eexists.
       apply (pm_single prom_nq p s t E E0 Er).
-  - (* captures west *)
+Qed.
+
+Lemma snd_capw x : In x (hl_cap p DW) -> lg x = true -> exists m, In m (pseudo p) /\ is_legal p m = true.
+Proof.
+  intros Hx Hl. destruct (king_facts p Hlegal) as (K1 & K2 & K3).
+  pose proof (legal_wfp p Hlegal) as Hw. pose proof (wf_stm p Hw) as Hc.
+  (* captures west *)
     unfold hl_cap in Hx. apply (loop_in p (cap_word p DW) (capdir c DW) normal1 x (cap_word_lt p DW)) in Hx.
     2:{ intros t Ht. apply (cap_word_bit p Hlegal) in Ht as [s [Hs [E _]]]. now exists s. }
     destruct Hx as (s & t & [Hs Hat] & E & Hb & [<-|[]]). apply (cap_word_bit p Hlegal) in Hb as (s' & _ & _ & Een).
@@ -532,7 +549,13 @@ Proof.
     + exists (mkmv s t NORMAL 3). split; [|exact Hl].
       apply pseudo_of_shape. apply (ps_pawn p s _ Hs Hat). apply (pawn_moves_pmove prom_nq). eexists.
       apply (pm_cap prom_nq p s t Hin Een Er).
-  - (* captures east *)
+Qed.
+
+Lemma snd_cape x : In x (hl_cap p DE) -> lg x = true -> exists m, In m (pseudo p) /\ is_legal p m = true.
+Proof.
+  intros Hx Hl. destruct (king_facts p Hlegal) as (K1 & K2 & K3).
+  pose proof (legal_wfp p Hlegal) as Hw. pose proof (wf_stm p Hw) as Hc.
+  (* captures east *)
     unfold hl_cap in Hx. apply (loop_in p (cap_word p DE) (capdir c DE) normal1 x (cap_word_lt p DE)) in Hx.
     2:{ intros t Ht. apply (cap_word_bit p Hlegal) in Ht as [s [Hs [E _]]]. now exists s. }
     destruct Hx as (s & t & [Hs Hat] & E & Hb & [<-|[]]). apply (cap_word_bit p Hlegal) in Hb as (s' & _ & _ & Een).
@@ -549,7 +572,13 @@ Proof.
     + exists (mkmv s t NORMAL 3). split; [|exact Hl].
       apply pseudo_of_shape. apply (ps_pawn p s _ Hs Hat). apply (pawn_moves_pmove prom_nq). eexists.
       apply (pm_cap prom_nq p s t Hin Een Er).
-  - (* officers *)
+Qed.
+
+Lemma snd_off x : In x (hl_off p) -> lg x = true -> exists m, In m (pseudo p) /\ is_legal p m = true.
+Proof.
+  intros Hx Hl. destruct (king_facts p Hlegal) as (K1 & K2 & K3).
+  pose proof (legal_wfp p Hlegal) as Hw. pose proof (wf_stm p Hw) as Hc.
+  (* officers *)
     unfold hl_off in Hx. apply in_flat_map in Hx as [pt [Hpt Hx]].
     assert (Ho : officer pt).
     { unfold officer. cbn [In] in Hpt.
@@ -563,11 +592,30 @@ Proof.
     pose proof (spec_targets_lt _ _ _ _ Hb1) as Hto.
     destruct (piece_cand pt from to Hf (or_introl Hr) Hat Hb1 (own_or_not to Hto Hb2)) as (P1 & P2 & P3).
     exists (mkmv from to NORMAL 3). split; [exact P1|]. now rewrite <- (lg_code _ P3), <- P2.
-  - (* en passant *)
+Qed.
+
+Lemma snd_epw x : In x (ep_comp p DW) -> lg x = true -> exists m, In m (pseudo p) /\ is_legal p m = true.
+Proof.
+  intros Hx Hl. destruct (king_facts p Hlegal) as (K1 & K2 & K3).
+  pose proof (legal_wfp p Hlegal) as Hw. pose proof (wf_stm p Hw) as Hc.
+  (* en passant *)
     apply (comp_class prom_nq p Hlegal 4 x ltac:(lia)) in Hx. apply class_codes_in in Hx as (m & Hm & _ & <-).
     exists m. split; [exact Hm|]. now rewrite <- (lg_code m (pseudo_valid p m Hw Hm)).
-  - apply (comp_class prom_nq p Hlegal 5 x ltac:(lia)) in Hx. apply class_codes_in in Hx as (m & Hm & _ & <-).
+Qed.
+
+Lemma snd_epe x : In x (ep_comp p DE) -> lg x = true -> exists m, In m (pseudo p) /\ is_legal p m = true.
+Proof.
+  intros Hx Hl. destruct (king_facts p Hlegal) as (K1 & K2 & K3).
+  pose proof (legal_wfp p Hlegal) as Hw. pose proof (wf_stm p Hw) as Hc.
+  apply (comp_class prom_nq p Hlegal 5 x ltac:(lia)) in Hx. apply class_codes_in in Hx as (m & Hm & _ & <-).
     exists m. split; [exact Hm|]. now rewrite <- (lg_code m (pseudo_valid p m Hw Hm)).
+Qed.
+
+Lemma cand_sound x : In x (hl_cands p) -> lg x = true -> exists m, In m (pseudo p) /\ is_legal p m = true.
+Proof.
+  intros Hx Hl. apply in_cands in Hx. destruct Hx as [Hx|[Hx|[Hx|[Hx|[Hx|[Hx|[Hx|Hx]]]]]]].
+  - now apply snd_king. - now apply snd_double. - now apply snd_push. - now apply snd_capw.
+  - now apply snd_cape. - now apply snd_off. - now apply snd_epw. - now apply snd_epe.
 Qed.
 
 End Exact.
